@@ -268,6 +268,10 @@ func (u *Universe) GenOp(rng *rand.Rand, m *Model, o GenOpts) *Op {
 		case k < 10:
 			data := pick(rng, u.Blobs)
 			op := &Op{Kind: "PushBlob", Repo: repo, Data: data, Digest: Digest(data), Size: int64(len(data)), MediaType: "application/octet-stream"}
+			if rng.IntN(3) == 0 {
+				// the same content is pushed under different media types over time
+				op.MediaType = pick(rng, []string{"application/vnd.oci.image.config.v1+json", "application/vnd.oci.image.layer.v1.tar", "application/x-blob; kind=2"})
+			}
 			switch rng.IntN(16) {
 			case 0:
 				op.Digest = Digest(append([]byte("other"), data...))
